@@ -139,7 +139,13 @@ int main(int argc, char **argv)
     int mgrp[2] = {0, 0};
 
     for (i = 0; i < (int) sizeof(payload); i++) payload[i] = (unsigned char) (i * 31 + 7);
-    if (!strcmp(key, "ed"))
+    if (!strcmp(key, "pss"))
+    {
+        /* rsaEncryption keys, certificates signed with RSASSA-PSS (generated into certdir=) */
+        const char *cd = arg(argc, argv, "certdir", ".");
+        snprintf(cert, sizeof(cert), "%s/pleaf.pem", cd); snprintf(pkey, sizeof(pkey), "%s/kPL.key.pem", cd); snprintf(ca, sizeof(ca), "%s/proot.pem", cd);
+    }
+    else if (!strcmp(key, "ed"))
     {
         /* Ed25519 identity and issuer, generated by the check with harness/certgen into certdir= (the repository's test keys have none) */
         const char *cd = arg(argc, argv, "certdir", ".");
